@@ -283,6 +283,8 @@ type hubCfg struct {
 	Compat7       bool     `json:"compat7"`
 	Subscriptions bool     `json:"subscriptions"`
 	Bolt          bool     `json:"bolt"`
+	// Cors: the CORS origins option (WithCORSOrigins); not a publish origin: it must not influence authorisation
+	Cors []string `json:"cors_origins,omitempty"`
 }
 
 type fixture struct {
@@ -308,6 +310,9 @@ func (c hubCfg) options(f *fixture) []mercure.Option {
 	}
 	if c.CookieName != "" {
 		opts = append(opts, mercure.WithCookieName(c.CookieName))
+	}
+	if len(c.Cors) > 0 {
+		opts = append(opts, mercure.WithCORSOrigins(c.Cors))
 	}
 	if c.Compat7 {
 		opts = append(opts, mercure.WithProtocolVersionCompatibility(7))
